@@ -37,6 +37,10 @@ CLAIMED = {
    text='TLC checks on every ordered pair of label sequences of a small scope that the reference route (union, re-index both operands, element-wise operator) meets the declarative label->value statement and that permuting either operand leaves the result map unchanged (MC_C06); every enumerated case is replayed on real Series; recorded index set operations and Series/Frame/Frame-Series/scalar operators (overlapping, disjoint, permuted, equal, empty label sets; str/int/mixed/tuple/date labels; square frames sharing one label pool on both axes; all layouts) are validated by TLC against SetOpOK / SeriesOpOK / FrameOpOK / FrameSeriesOpOK / ScalarOpOK (Trace_C06).',
    ref='DESIGN.md section 4 (C06)', note='Values are compared as exact rationals / Booleans; the order of a union is chosen by the implementation except for equal operands.',
    technique='TLA+ spec SFAlign model checked with TLC; state dump replayed into the code; recorded operations validated by a TLC trace spec'),
+ 'C10': dict(
+   text='TLC checks on all pairs and thirds of a small scope that the content predicate (SFEquals) is reflexive, symmetric and transitive and that the as-built block comparison (== plus the both-missing mask) refines it; the negative control with the left mask combined with itself (the defect repaired on this tree) violates symmetry (MC_C10); every enumerated pair is replayed as Series and as Frame in both directions; families of single-point mutants of random containers (cell, label, dtype, name, class, NaN/None, shape, layout) are compared by the real code and TLC (Trace_C10) checks the recorded equals matrix (reflexive, symmetric, transitive, = predicate under the options) and, for HE variants, ==, !=, hash and set behaviour.',
+   ref='DESIGN.md section 4 (C10)', note='a.equals(a) is True by identity even with NaN and skipna=False: the diagonal is only required to be True. Bus and IndexHierarchy equals are covered through Frames with hierarchical labels only.',
+   technique='TLA+ spec SFEquals model checked with TLC; state dump replayed into the code; recorded comparison matrices validated by a TLC trace spec'),
 }
 REASON_TODO = 'not yet built in this round: the specification module for this property is still being written (see DESIGN.md section 9)'
 ALL = ['C%02d' % i for i in range(1, 21)]
